@@ -6,7 +6,11 @@ package userauth
 // round-trip. GetInitMsg demands a *tubes.Reliable, so every case runs over a
 // real pair of muxers on an in-memory network inside a synctest bubble: the
 // client side writes the request followed by sentinel bytes and closes, the
-// server side calls GetInitMsg and then drains the tube.
+// server side calls GetInitMsg and then drains the tube. The delivery pattern
+// of a case (wire.Delivery) decides in how many separate writes - each one
+// delivered and read before the next is made - the request reaches the reader,
+// and whether the reader only starts after the peer's close was processed (the
+// tube then reports end-of-stream together with the last bytes).
 
 import (
 	"bytes"
@@ -45,6 +49,15 @@ func vuaQuiet() *logrus.Entry {
 // runs read on the accepting side. It returns what read left unread. problem is
 // non-empty when the fixture itself failed (not a verdict about hop-go).
 func vuaOverTube(t *testing.T, wireBytes []byte, tubeType tubes.TubeType, read func(tb *tubes.Reliable)) (rest []byte, panicVal string, panicStack string, problem string) {
+	return vuaOverTubeDlv(t, wireBytes, nil, false, tubeType, read)
+}
+
+// vuaOverTubeDlv is vuaOverTube with a delivery schedule: pieces (lengths
+// summing to len(wireBytes); nil = one write) are written one by one with a
+// virtual pause in between, so that the reader - already blocked in Read - gets
+// each piece in a Read of its own; closeFirst makes the reader start only after
+// everything was written, the tube closed and the network gone quiet.
+func vuaOverTubeDlv(t *testing.T, wireBytes []byte, pieces []int, closeFirst bool, tubeType tubes.TubeType, read func(tb *tubes.Reliable)) (rest []byte, panicVal string, panicStack string, problem string) {
 	res := vlib.Bubble(t, 60*time.Second, func() {
 		n := memconn.New(memconn.Params{}, memconn.Params{}, 8192)
 		cfg := &tubes.Config{Timeout: 0, Log: vuaQuiet()}
@@ -71,11 +84,24 @@ func vuaOverTube(t *testing.T, wireBytes []byte, tubeType tubes.TubeType, read f
 			wdone := make(chan struct{})
 			go func() {
 				defer close(wdone)
-				if len(wireBytes) > 0 {
-					ta.Write(wireBytes)
+				left := wireBytes
+				for i, n := range pieces {
+					if n <= 0 || n >= len(left) || i == len(pieces)-1 {
+						break
+					}
+					ta.Write(left[:n])
+					left = left[n:]
+					time.Sleep(5 * time.Millisecond) // virtual: elapses once the piece was delivered and read
+				}
+				if len(left) > 0 {
+					ta.Write(left)
 				}
 				ta.Close()
 			}()
+			if closeFirst {
+				<-wdone
+				time.Sleep(time.Second) // virtual: data and FIN have arrived (as far as the receive window admits)
+			}
 			func() {
 				defer func() {
 					if r := recover(); r != nil {
@@ -126,6 +152,9 @@ type c18UA struct {
 	Len  int    `json:"len"`
 	Seed uint64 `json:"seed"`
 	Text bool   `json:"text"`
+	// how the request reaches the reader: Pieces(len, 24) of the pattern = separate writes; EOFWithData = no bytes follow
+	// the request and the reader starts after the peer's close (zero value: one write, reader and writer concurrent)
+	Dlv wire.Delivery `json:"dlv"`
 }
 
 func (c c18UA) user() string {
@@ -165,7 +194,17 @@ func c18UARun(t *testing.T) func(c c18UA, v *vlib.Verdict) {
 			return
 		}
 		var got string
-		rest, pv, ps, problem := vuaOverTube(t, append(append([]byte(nil), enc...), c18UASentinel...), common.UserAuthTube, func(tb *tubes.Reliable) { got = GetInitMsg(tb) })
+		sent := append([]byte(nil), enc...)
+		pieces := c.Dlv.Pieces(len(enc), 24)
+		if !c.Dlv.EOFWithData {
+			sent = append(sent, c18UASentinel...)
+			pieces = append(pieces, len(c18UASentinel))
+		}
+		v.Labelf("delivery=%s", map[bool]string{true: "one-write", false: "several-writes"}[len(pieces) <= 2 && pieces[0] == len(enc)])
+		if c.Dlv.EOFWithData {
+			v.Label("delivery:read-after-close")
+		}
+		rest, pv, ps, problem := vuaOverTubeDlv(t, sent, pieces, c.Dlv.EOFWithData, common.UserAuthTube, func(tb *tubes.Reliable) { got = GetInitMsg(tb) })
 		if pv != "" {
 			v.Failf(vlib.PanicSig(pv, ps), "panic: %s", pv)
 			return
@@ -174,9 +213,8 @@ func c18UARun(t *testing.T) func(c c18UA, v *vlib.Verdict) {
 			v.Inconclusive = "userauth tube fixture: " + problem
 			return
 		}
-		consumed := len(enc) + len(c18UASentinel) - len(rest)
+		consumed := len(sent) - len(rest)
 		// what the reader left unread must be the end of what was sent
-		sent := append(append([]byte(nil), enc...), c18UASentinel...)
 		tailOK := consumed >= 0 && bytes.Equal(rest, sent[consumed:])
 		if got == user && tailOK && consumed <= len(enc) {
 			if consumed < len(enc) {
@@ -208,7 +246,7 @@ func c18UARun(t *testing.T) func(c c18UA, v *vlib.Verdict) {
 
 func TestVerifC18UserAuthEncDec(t *testing.T) {
 	vlib.Drive(t, vlib.Spec[c18UA]{ID: "C18", Quick: 1600, Run: c18UARun(t), Gen: func(t *rapid.T) c18UA {
-		c := c18UA{Seed: rapid.Uint64().Draw(t, "seed"), Text: rapid.Bool().Draw(t, "text")}
+		c := c18UA{Seed: rapid.Uint64().Draw(t, "seed"), Text: rapid.Bool().Draw(t, "text"), Dlv: wire.DrawDelivery(t)}
 		switch rapid.IntRange(0, 9).Draw(t, "k") {
 		case 0, 1, 2:
 			c.Len = rapid.SampledFrom([]int{0, 1, 252, 253, 254, 255, 256, 257, 511, 512, 32767, 32768, 32769, 65534, 65535}).Draw(t, "edge")
